@@ -322,6 +322,60 @@ pub fn cmd_tree_dump(args: &Args) {
     println!("{{\"dumped\":{done},\"skipped\":{skipped}}}");
 }
 
+/// search-steps: for each case the un-pruned tree (header + one node per line) followed by the
+/// `down` / `up` events of the real search of that case with caching neutralised.
+pub fn cmd_search_steps(args: &Args) {
+    let cases = read_cases(&args.str("cases", "work/search/cases.ndjson"));
+    let out = args.str("out", "work/search/steps.ndjson");
+    let cap = args.usize("cap", 6000);
+    crate::board::zkey::ZTable::init();
+    std::panic::set_hook(Box::new(|_| {}));
+    let mut w = std::io::BufWriter::new(std::fs::File::create(&out).unwrap());
+    let mut done = 0usize;
+    let mut skipped = 0usize;
+    for (i, c) in cases.iter().enumerate() {
+        let fen = c["fen"].as_str().unwrap();
+        let hist = hist_of(c);
+        let depth = c["depth"].as_u64().unwrap_or(1) as u32;
+        let id = c["id"].as_u64().unwrap_or(i as u64);
+        let Some(mut board) = build_board(fen, &hist) else {
+            skipped += 1;
+            continue;
+        };
+        let Some(nodes) = dump_tree(&mut board, depth, cap) else {
+            skipped += 1;
+            continue;
+        };
+        crate::verif::STEPS.store(true, Ordering::Relaxed);
+        let o = run_search(&board, depth as u8, None, None, None, "off", true);
+        crate::verif::STEPS.store(false, Ordering::Relaxed);
+        let hist_json: Vec<String> = hist.iter().map(|m| format!("\"{m}\"")).collect();
+        writeln!(
+            w,
+            "{{\"ev\":\"tree\",\"id\":{id},\"fen\":\"{fen}\",\"hist\":[{}],\"depth\":{depth},\"best\":{},\"score\":{},\"panicked\":{},\"n\":{},\"nsteps\":{}}}",
+            hist_json.join(","),
+            o.best.map_or("\"none\"".to_string(), |p| format!("\"{}\"", p.to_notation())),
+            opt(o.score),
+            o.panicked,
+            nodes.len(),
+            o.events.len()
+        )
+        .unwrap();
+        for nd in &nodes {
+            writeln!(w, "{nd}").unwrap();
+        }
+        for e in &o.events {
+            if e.contains("\"ev\":\"down\"") || e.contains("\"ev\":\"up\"") {
+                writeln!(w, "{e}").unwrap();
+            }
+        }
+        writeln!(w, "{{\"ev\":\"endsteps\",\"id\":{id}}}").unwrap();
+        done += 1;
+    }
+    w.flush().unwrap();
+    println!("{{\"cases\":{done},\"skipped\":{skipped}}}");
+}
+
 // ------------------------------------------------------------------------------------------
 // mate-level facts (Board API only) and the searches of C12
 
